@@ -11,23 +11,24 @@
 (*                the single-search answer on the index as built           *)
 (* The other variants are implementations History must reject (a search    *)
 (* that consumes the entry, one that caches into the index, one that       *)
-(* scribbles on its token, one that pops the caller's list): every one of  *)
-(* them has to reach a state with why # "ok" (printed with tag "T").       *)
+(* scribbles on its token, one that pops the caller's list, one that keeps *)
+(* state outside the index and answers a repeated keyword differently):    *)
+(* every one of them has to reach a state with why # "ok" (tag "T").       *)
 (* Histories of the pure variant are emitted (tag "H") and replayed into   *)
 (* the nine real schemes.                                                  *)
 (***************************************************************************)
 EXTENDS History, TLC
 CONSTANTS D, DNeg
 
-Variants == {"pure", "consume", "cache", "tokmut", "popdb"}
+Variants == {"pure", "consume", "cache", "tokmut", "popdb", "hidden"}
 NLen == [p1 |-> 2, p2 |-> 1, ab |-> 0, near |-> 0]
 Scheme0 == "CJJ14.PiBas"
 Edb0 == [present |-> {"p1", "p2"}, cached |-> {}]
 Inp0 == [db |-> "db0", cfg |-> "cfg0", defcfg |-> "def0", key |-> "key0"]
 Answer(m, w) == IF w \in m.present THEN Iota(NLen[w]) ELSE <<>>
 
-VARIABLES variant, hist, res, why
-mcvars == <<inp, edb, ans, variant, hist, res, why>>
+VARIABLES variant, hist, res, why, hid
+mcvars == <<inp, edb, ans, variant, hist, res, why, hid>>
 
 After(m, w) ==
     CASE variant = "consume" -> [m EXCEPT !.present = @ \ {w}]
@@ -36,9 +37,9 @@ After(m, w) ==
 Obs(w) == [edbPre |-> edb, edbPost |-> After(edb, w),
            tokPre |-> w, tokPost |-> IF variant = "tokmut" THEN "used" ELSE w,
            inp |-> IF variant = "popdb" /\ w = "p1" THEN [inp EXCEPT !.db = "db0-popped"] ELSE inp,
-           out |-> "result", pos |-> Answer(edb, w)]
+           out |-> "result", pos |-> IF variant = "hidden" /\ w \in hid THEN <<>> ELSE Answer(edb, w)]
 
-MCInit == /\ HInit(Inp0, Edb0) /\ variant \in Variants /\ hist = <<>> /\ res = <<>> /\ why = "ok"
+MCInit == /\ HInit(Inp0, Edb0) /\ variant \in Variants /\ hist = <<>> /\ res = <<>> /\ why = "ok" /\ hid = {}
 MCNext == /\ why = "ok"
           /\ Len(hist) < (IF variant = "pure" THEN D ELSE DNeg)
           /\ \E w \in Symbols :
@@ -47,6 +48,7 @@ MCNext == /\ why = "ok"
                 /\ inp' = Obs(w).inp
                 /\ ans' = [ans EXCEPT ![w] = IF ans[w].seen THEN @ ELSE [seen |-> TRUE, pos |-> Obs(w).pos]]
                 /\ hist' = Append(hist, w) /\ res' = Append(res, Obs(w).pos)
+                /\ hid' = hid \cup {w}       \* state outside the index (scheme object, module global): used by "hidden"
                 /\ UNCHANGED variant
 MCSpec == MCInit /\ [][MCNext]_mcvars
 
